@@ -394,3 +394,8 @@ func Origin(v ssa.Value) ssa.Value {
 	}
 	return v
 }
+
+func isBool(t types.Type) bool {
+	b, ok := t.Underlying().(*types.Basic)
+	return ok && b.Kind() == types.Bool
+}
